@@ -55,6 +55,8 @@ type sop struct {
 	Merge bool     `json:"merge,omitempty"`
 	TS    int      `json:"ts,omitempty"`
 	Twice bool     `json:"twice,omitempty"`
+	At    []atSpec `json:"at,omitempty"`
+	Free  freeSpec `json:"free,omitempty"`
 	P     string   `json:"p,omitempty"`
 }
 
@@ -80,6 +82,7 @@ type runner struct {
 	pendingRot map[int]bool // spawned rotation flushers not yet released (manual mode)
 	crash      *crashCtl
 	gen        []genSpec
+	rotHandled map[int]bool
 }
 
 // deterministic, incompressible bytes for value id v
@@ -418,6 +421,7 @@ func (r *runner) step(i int, o *sop) (e ev, stop bool) {
 		if p.RecSize > 0 {
 			e["nblk"] = int(p.RecSize) / 256
 		}
+		e["ver"] = p.Ver // the version the write got (0/-1 = nothing was written)
 	case "get":
 		vs.setProc("c1")
 		g := r.get(o.K)
@@ -455,6 +459,7 @@ func (r *runner) step(i int, o *sop) (e ev, stop bool) {
 		// the process "exits": goroutines still parked at a gate die with it
 		r.waitParked()
 		r.pendingRot = map[int]bool{}
+		r.rotHandled = map[int]bool{}
 		vs.mu.Lock()
 		vs.rotGate = map[int]chan struct{}{}
 		vs.rotDone = map[int]chan struct{}{}
@@ -533,7 +538,13 @@ func (r *runner) step(i int, o *sop) (e ev, stop bool) {
 		if err != nil {
 			e["res"], e["err"] = "err", err.Error()
 		} else {
-			r.store.gcMgr.gc(r.bkt, b, en, o.Merge)
+			vl.emit(ev{"a": "GCStart", "l": 1, "p": "gc", "begin": o.Begin, "end": o.End, "merge": o.Merge, "rb": b, "re": en,
+				"old": old, "agesure": sure})
+			if len(o.At) > 0 {
+				r.gcWithAt(o, b, en)
+			} else {
+				r.store.gcMgr.gc(r.bkt, b, en, o.Merge)
+			}
 			st := r.bkt.GCHistory[len(r.bkt.GCHistory)-1]
 			e["res"], e["rb"], e["re"], e["released"] = "ok", b, en, st.NumReleased
 			if st.Err != nil {
@@ -554,6 +565,10 @@ func (r *runner) step(i int, o *sop) (e ev, stop bool) {
 				}
 			}
 		}
+	case "gc2":
+		r.gc2(o, e)
+	case "free":
+		r.free(o, e)
 	case "readall":
 		vs.setProc("c1")
 		e["a"], e["reads"] = "ReadAll", r.readAll()
@@ -564,7 +579,13 @@ func (r *runner) step(i int, o *sop) (e ev, stop bool) {
 	if r.bkt != nil && r.bkt.datas != nil && headBefore >= 0 && r.bkt.datas.newHead > headBefore {
 		rot := []int{}
 		for c := headBefore; c < r.bkt.datas.newHead; c++ {
-			rot = append(rot, c)
+			if !r.rotHandled[c] {
+				rot = append(rot, c)
+				r.rotHandled[c] = true
+			}
+		}
+		if len(rot) == 0 {
+			return
 		}
 		e["spawned"] = rot
 		if !auto {
@@ -636,6 +657,7 @@ func (r *runner) metaAll() ev {
 func (r *runner) run() {
 	r.vals = map[string]int{}
 	r.pendingRot = map[int]bool{}
+	r.rotHandled = map[int]bool{}
 	ks := map[string]bool{}
 	for _, o := range r.sc.Ops {
 		if o.K != "" {
